@@ -28,6 +28,9 @@ func (x *hW) prefix(k int) {
 		x.opNewEntityWith(1<<uC | 1<<uZ)
 		x.opNewEntityWith(1 << uZ)
 		x.opNewEntityWith(B | 1<<uC)
+		// sized components with a higher id than the zero-sized one
+		x.opBuilderNew(1<<uZ|R1, uR1, false, Entity{}, true)
+		x.opBuilderNew(1<<uZ|R1, uR1, false, Entity{}, true)
 	case 3: // relation node with two parents
 		x.opNewEntity(0)
 		x.opNewEntity(0)
